@@ -157,7 +157,7 @@ class InitSegment(DashElement):
                 break
         msg = 'Failed to find MOOV box in this init segment'
         if not self.elt.check_not_none(moov, msg=msg):
-            self.logging.error(msg)
+            self.log.error(msg)
             return None
         self.validate_moov(moov)
         pssh = moov.find_child('pssh')
